@@ -27,6 +27,17 @@ int main()
 		printf("OBSERVED depth %d eps %g: forward %.15g (%ld evaluations), reversed %.15g (%ld), negative epsilon %.15g, cap %ld%s\n", depth, eps, fwd, n1, rev, n2, neg, cap, ok ? "" : "  ** VIOLATES the property **");
 		if(!ok) bad++;
 	}
+	// error request: for integrands whose fourth derivative keeps one sign and varies by at most a factor four over the interval the
+	// absolute error is at most four times epsilon (whatever the size of the integral), unless the depth limit was hit
+	for(double amp : {1.0, 1e3, 1e6}) for(double eps : {1e-3, 1e-6, 1e-9}) for(int which = 0; which < 2; which++)
+	{
+		auto f = [&](double x) { return which ? amp * std::cosh(x) : amp * std::exp(x); };
+		double exact = which ? amp * std::sinh(1.0) : amp * (std::exp(1.0) - 1.0);
+		double v = Integrate(f, 0.0, 1.0, eps, 40);
+		double allowed = 4.0 * eps + 8e-16 * std::fabs(exact) * 50;
+		bool ok = std::fabs(v - exact) <= allowed;
+		if(!ok) { printf("OBSERVED %g * %s on [0,1] with epsilon %g: %.15g, exact %.15g, error %.3g > 4 epsilon  ** VIOLATES the property **\n", amp, which ? "cosh" : "exp", eps, v, exact, std::fabs(v - exact)); bad++; }
+	}
 	printf(bad ? "REPRODUCED %d\n" : "NOT-REPRODUCED\n", bad);
 	return 0;
 }
